@@ -94,19 +94,25 @@ func (e *env) runRaw(in RawInput) (RawObs, string) {
 	for _, r := range in.Reply {
 		reply = append(reply, r)
 	}
-	e.rawBE.mu.Lock()
-	e.rawBE.script = rawScript{Want: len(sent), Reply: reply}
-	e.rawBE.mu.Unlock()
-	e.udpBE.mu.Lock()
-	e.udpBE.reply = func(d []byte) []byte {
-		if len(reply) > 0 {
-			return reply[0]
-		}
-		return nil
+	for _, rb := range []*rawBackend{e.rawBE, e.rawBE2} {
+		rb.mu.Lock()
+		rb.script = rawScript{Want: len(sent), Reply: reply}
+		rb.mu.Unlock()
 	}
-	e.udpBE.mu.Unlock()
+	for _, ub := range []*udpBackend{e.udpBE, e.udpBE2} {
+		ub.mu.Lock()
+		ub.reply = func(d []byte) []byte {
+			if len(reply) > 0 {
+				return reply[0]
+			}
+			return nil
+		}
+		ub.mu.Unlock()
+	}
 	tcp0 := len(e.rawBE.snapshot())
 	udp0 := len(e.udpBE.snapshot())
+	tcp20 := len(e.rawBE2.snapshot())
+	udp20 := len(e.udpBE2.snapshot())
 	// which backend a service's director points to: copy -> rawBE (tcp) ; dns-proxy -> udpBE / rawBE has no dns
 	cat := catOf(in.Svc)
 	var clientGot []byte
@@ -224,15 +230,17 @@ func (e *env) runRaw(in RawInput) (RawObs, string) {
 	}
 	time.Sleep(5 * time.Millisecond)
 	// observations
-	tcps := e.rawBE.snapshot()[tcp0:]
-	udps := e.udpBE.snapshot()[udp0:]
+	tcps := append(e.rawBE.snapshot()[tcp0:], e.rawBE2.snapshot()[tcp20:]...)
+	udps := append(e.udpBE.snapshot()[udp0:], e.udpBE2.snapshot()[udp20:]...)
 	for _, c := range tcps {
 		select {
 		case <-c.done:
 		case <-time.After(2 * time.Second):
 		}
 		e.rawBE.mu.Lock()
+		e.rawBE2.mu.Lock()
 		ob.Backend = append(ob.Backend, c.got...)
+		e.rawBE2.mu.Unlock()
 		e.rawBE.mu.Unlock()
 	}
 	for _, d := range udps {
